@@ -38,10 +38,10 @@ def run_case(case):
         out = "Ok"
         try:
             if op[0] == "Reg":
-                root.on_trait_change(legacy, case["legacy"])
+                root.on_trait_change(legacy, case["legacy"], deferred=bool(case.get("deferred")))
                 root.observe(obs_handler, expr)
             elif op[0] == "Unreg":
-                root.on_trait_change(legacy, case["legacy"], remove=True)
+                root.on_trait_change(legacy, case["legacy"], remove=True, deferred=bool(case.get("deferred")))
                 root.observe(obs_handler, expr, remove=True)
             else:
                 w.run_op(op)
